@@ -2,9 +2,11 @@
 # usage: try_seed.sh <patch.diff> <prop> [<prop>...]  -- applies the patch to /repo, runs the quick checks, restores /repo
 PATCH=$1; shift
 cd /verif
+rm -rf /verif/.run/evidence_backup && cp -r /verif/evidence /verif/.run/evidence_backup
 git -C /repo apply $PATCH || { echo "PATCH-DOES-NOT-APPLY"; exit 2; }
 for p in "$@"; do
   echo "=== $p"; timeout 1800 ./check $p --tier quick 2>&1 | tail -4
 done
 git -C /repo checkout -- .
+rm -rf /verif/evidence && mv /verif/.run/evidence_backup /verif/evidence
 git -C /repo status --short | head -3
